@@ -43,6 +43,10 @@ AdminBan(s) == /\ nops < MaxOps /\ nops' = nops + 1 /\ s \in Replicas /\ ~Banned
 AdminUnban(s) == /\ nops < MaxOps /\ nops' = nops + 1 /\ Banned(s)
                  /\ ban' = [ban EXCEPT ![s] = 0] /\ UNCHANGED <<mode, now, last>>
 
+\* A second client opens a transaction on server s and keeps it open for the rest of the history: work in flight on a
+\* server changes nothing about how its failures are treated (the ban rules do not mention it).
+Hold(s) == /\ nops < MaxOps /\ nops' = nops + 1 /\ mode[s] = "up" /\ ~Banned(s) /\ UNCHANGED <<mode, ban, now, last>>
+
 \* One client transaction with role request req.  The candidate loop of get() is resolved here as a set of
 \* possible outcomes; `order` is the (arbitrary) order in which candidates are tried.
 BanSet(b, S) == [s \in Servers |-> IF s \in S /\ (s # "p" \/ "primary_bannable" \in Dev) THEN now + BanTime ELSE b[s]]
@@ -86,6 +90,7 @@ Next == \/ \E s \in Servers, m \in Modes : Fault(s, m)
         \/ Tick
         \/ \E s \in Servers : AdminBan(s) \/ AdminUnban(s)
         \/ \E r \in Requests, o \in Orders : Tx(r, o)
+        \/ \E s \in Servers : Hold(s)
 Spec == Init /\ [][Next]_vars
 
 NoViolation == last.viol = {}
